@@ -623,6 +623,9 @@ class HeapExec(DynExec):
             v = self.getattr(v, 'tokens', st)      # list(tlist) iterates tlist.tokens (TokenList.__iter__)
         if isinstance(v, LRef):
             return [(st, self.new_list(st, list(st.lists[v.lid])))]
+        if isinstance(v, Opaque) and v.name == 'generator':
+            # list(<read-only generator of tokens>): a new list of unknown tokens
+            return [(st, self.new_list(st, [('seg', self.new_seg(st, name='from_generator'))]))]
         return NotImplemented
 
     def len_of(self, v, st):
